@@ -280,6 +280,7 @@ def corpus(tag, size, prods, roots=("I",), scope=3, simulate=None, depth=None, s
             pass
     if r.violation:
         raise vlib.ToolError("Lang.tla: %s violated (model type soundness) in %s\n%s" % (r.violation, tag, "\n".join(r.trace[-2:])[:2000]))
+    outs.sort(key=lambda o: json.dumps(o["p"]))      # TLC's output order depends on its worker threads
     if sample is not None and len(outs) > sample:
         import random
         rnd = random.Random(rng_seed)
